@@ -47,6 +47,8 @@ def build(tier):
     out.append(scase("indexmap", "indexmap::IndexSet<Gp<St>>", "Array<Gp<St>>", deps=["Gp", "St"]))
     out.append(scase("indexmap", "indexmap::IndexMap<String, Gp<St>>", "{ [key in string]?: Gp<St> }", deps=["Gp", "St"]))
     out.append(scase("heapless", "heapless::Vec<Gp<St>, 4>", "Array<Gp<St>>", deps=["Gp", "St"]))
+    out.append(scase("indexmap", "indexmap::IndexMap<Box<Ue>, Gp<St>>", "{ [key in Ue]?: Gp<St> }", deps=["Gp", "St", "Ue"]))
+    out.append(scase("serde_json", "serde_json::Map<Box<Ue>, St>", "{ [key in Ue]?: St }", deps=["St", "Ue"]))
     out.append(scase("tokio", "tokio::sync::Mutex<Gp<St>>", "Gp<St>", deps=["Gp", "St"]))
     out.append(scase("tokio", "tokio::sync::Mutex<St>", "St", deps=["St"]))
     out.append(scase("tokio", "tokio::sync::RwLock<Vec<St>>", "Array<St>", deps=["St"]))
